@@ -134,4 +134,37 @@ theorem takeWhile_all {α : Type} (p : α → Bool) : ∀ (l : List α), (∀ t 
     simp only [List.takeWhile, h x (List.mem_cons_self ..)]
     rw [takeWhile_all p r (fun t ht => h t (List.mem_cons_of_mem _ ht))]
 
+theorem cutUpto_subset (upto : Option Bytes) : ∀ (l : List Tx) (t : Tx), t ∈ cutUpto upto l → t ∈ l
+  | [], _, h => by simp [cutUpto] at h
+  | x :: r, t, h => by
+    unfold cutUpto at h
+    cases upto with
+    | none => exact h
+    | some u =>
+      simp only at h
+      split at h
+      · simp only [List.mem_cons, List.mem_nil_iff, or_false] at h
+        subst h; exact List.mem_cons_self ..
+      · rcases List.mem_cons.mp h with rfl | h
+        · exact List.mem_cons_self ..
+        · exact List.mem_cons_of_mem _ (cutUpto_subset (some u) r t h)
+
+theorem dropBefore_subset (before : Option Bytes) (l : List Tx) (t : Tx) (h : t ∈ dropBefore before l) : t ∈ l := by
+  unfold dropBefore at h
+  cases before with
+  | none => exact h
+  | some b =>
+    simp only at h
+    exact (List.dropWhile_sublist _).subset ((List.drop_sublist 1 _).subset h)
+
+theorem page_subset (limit : Nat) (before upto : Option Bytes) (l : List Tx) (t : Tx) (h : t ∈ page limit before upto l) : t ∈ l := by
+  unfold page at h
+  exact dropBefore_subset before l t (List.mem_of_mem_take (cutUpto_subset upto _ t h))
+
+theorem page_default (l : List Tx) (limit : Nat) : page limit none none l = l.take limit := by
+  unfold page dropBefore
+  cases h : l.take limit with
+  | nil => rfl
+  | cons x r => simp [cutUpto]
+
 end EpochLookup
